@@ -20,6 +20,11 @@ Paths are run-length encoded in the observation ("/0^1000/1").
 arguments, so a callback may start another traversal (same tree object or another tree, its own
 user function and argument) before it returns, to any nesting depth, and traversals may follow
 one another; every traversal must be the reference traversal of its own tree and schedule.
+(5) every argument of json_c_visit: SCHED may carry "@f<int>" (the reserved future_flags argument:
+0, 1, 2, 3, -1, INT_MAX, INT_MIN, random) and "@a<kind>" (which userarg pointer is passed: the
+driver's record, NULL, a heap block, the tree root, an odd address); the flags of every call are
+recorded verbatim and must be exactly 0 / JSON_C_VISIT_SECOND, the userarg must arrive unchanged.
+A third of all other cases carry such options too, plus a dedicated family.
 Line syntax:  PROG { ; PROG },  PROG := TREE SCHED { ( K PROG ) }  (see harness/drv_visit.c);
 observation "T<i> <calls> | ret <r>" / "T<i> notrun" joined by " || ", every call with a sixth
 token naming the user argument it arrived with ("own" / "arg<j>").
@@ -50,6 +55,7 @@ TRUSTED = ["Coq 8.16.1 kernel (coqc), no axioms (Print Assumptions: closed under
            "harness/drv_visit.c (node identity by pointer table built with the plain container API), jvtext.h, gcc -fsanitize=address,undefined",
            "checks/C17.py ref_visit as the reading of json_visit.h"]
 ASSUMPTIONS = ["the callback does not modify the tree or *jso_index during the visit",
+               "future_flags is documented as reserved/unused: the reference traversal does not depend on it",
                "overlapping traversals are exercised by nesting (a callback that calls json_c_visit); two threads visiting "
                "concurrently are not run (the harness is single-threaded)",
                "object members are iterated in insertion order (C06 iteration_order); the model walks the member list",
@@ -149,8 +155,14 @@ def want_obs(tree, sched):
     return " | ".join(calls + ["ret %d" % res]), len(calls)
 
 
-def mkline(tree_text, sched):
-    return "visit %s %s" % (tree_text, ",".join(str(c) for c in sched) if sched else "-")
+def mkline(tree_text, sched, opts=""):
+    return "visit %s %s%s" % (tree_text, ",".join(str(c) for c in sched) if sched else "-", opts)
+
+
+def _sched_tok(tok):
+    """SCHED := CODES { @f<future_flags> | @a<userarg kind> } -> (codes, options text)"""
+    codes, at, opts = tok.partition("@")
+    return ([] if codes == "-" else [int(x) for x in codes.split(",")]), at + opts
 
 
 def dump(v):
@@ -259,8 +271,8 @@ def _count(v):
 def parse_line(line):
     _, t, s = line.split(" ")
     tree = parse(t)
-    sched = [] if s == "-" else [int(x) for x in s.split(",")]
-    return t, tree, sched
+    sched, opts = _sched_tok(s)
+    return t, tree, sched, opts
 
 
 # ---- programs of traversals: (tree | "=", sched, [(k, prog), ...])
@@ -272,7 +284,7 @@ def parse_progs(line):
         t, sc = toks[pos[0]], toks[pos[0] + 1]
         pos[0] += 2
         tree = "=" if t == "=" else parse(t)
-        sched = [] if sc == "-" else [int(x) for x in sc.split(",")]
+        sched, opts = _sched_tok(sc)
         nested = []
         while pos[0] < len(toks) and toks[pos[0]] == "(":
             k = int(toks[pos[0] + 1])
@@ -280,7 +292,7 @@ def parse_progs(line):
             nested.append((k, prog()))
             assert toks[pos[0]] == ")"
             pos[0] += 1
-        return (tree, sched, nested)
+        return (tree, sched, nested, opts)
     out = [prog()]
     while pos[0] < len(toks):
         assert toks[pos[0]] == ";"
@@ -290,8 +302,9 @@ def parse_progs(line):
 
 
 def prog_text(p):
-    tree, sched, nested = p
-    return " ".join([tree if tree == "=" else dump(tree), ",".join(str(c) for c in sched) if sched else "-"] +
+    tree, sched, nested = p[:3]
+    opts = p[3] if len(p) > 3 else ""
+    return " ".join([tree if tree == "=" else dump(tree), (",".join(str(c) for c in sched) if sched else "-") + opts] +
                     ["( %d %s )" % (k, prog_text(q)) for k, q in nested])
 
 
@@ -607,8 +620,73 @@ def gen_programs(rng, tier):
     return out
 
 
+# ------------------------------------------------------------------ every argument of json_c_visit
+# future_flags is reserved and documented as unused: whatever the caller passes, the flags a callback
+# sees are 0 (first call) and JSON_C_VISIT_SECOND (second call); userarg must arrive unchanged at
+# every call, whatever pointer it is.  The reference observation does not depend on either.
+INT_MAX, INT_MIN = 2147483647, -2147483648
+FUTURE_FLAGS = [1, 2, 3, -1, INT_MAX, INT_MIN, 4, 0x100, -2]
+ARG_KINDS = [0, 1, 2, 3, 4]        # see harness/drv_visit.c
+
+
+def _opts(ff, ak):
+    return ("@f%d" % ff if ff else "") + ("@a%d" % ak if ak else "")
+
+
+def decorate(line, pick):
+    """append options to every SCHED token of a line; pick() -> options text"""
+    toks = line.split(" ")
+    expect_tree = True
+    for i in range(1, len(toks)):
+        t = toks[i]
+        if t in ("(", ")", ";"):
+            expect_tree = t != ")"
+            if t == "(":
+                expect_tree = None          # next token is K
+            continue
+        if expect_tree is None:
+            expect_tree = True              # that was K
+        elif expect_tree:
+            expect_tree = False             # TREE; SCHED follows
+        else:
+            toks[i] = t + pick()
+            expect_tree = True
+    return " ".join(toks)
+
+
+def gen_args(rng, tier):
+    out = []
+    trees = [parse(t) for t in _OUTER]
+    scheds = [[], [CONTINUE, SKIP], [CONTINUE, POP], [CONTINUE, CONTINUE, STOP], [CONTINUE, ERROR], [CONTINUE, CONTINUE, 9]]
+    ffs = [0] + FUTURE_FLAGS + [rng.randint(INT_MIN, INT_MAX) for _ in range(3 if tier == "quick" else 30)]
+    for tree in trees:
+        text = dump(tree)
+        for ff in ffs:
+            for ak in ARG_KINDS:
+                for sc in (scheds if tier != "quick" else [scheds[0], rng.choice(scheds[1:])]):
+                    obs, _ = want_obs(tree, sc)
+                    out.append((mkline(text, sc, _opts(ff, ak)), {"kind": "args", "want": obs}))
+    return out
+
+
 def gen(rng, tier):
-    return gen_exhaustive(tier) + gen_random(rng, tier) + gen_programs(rng, tier) + gen_sizes(rng, tier)
+    cases = gen_exhaustive(tier) + gen_random(rng, tier) + gen_programs(rng, tier) + gen_sizes(rng, tier)
+    # a third of all other cases run with some non-default future_flags / userarg as well: the
+    # decision trees, programs and size families are independent of both
+    rot = [(ff, ak) for ff in FUTURE_FLAGS for ak in ARG_KINDS]
+    out = []
+    for i, (line, meta) in enumerate(cases):
+        if i % 3 == 1:
+            j = [i // 3]
+
+            def pick():
+                j[0] += 1
+                if rng.random() < 0.15:
+                    return _opts(rng.randint(INT_MIN, INT_MAX), rng.choice(ARG_KINDS))
+                return _opts(*rot[j[0] % len(rot)])
+            line = decorate(line, pick)
+        out.append((line, meta))
+    return out + gen_args(rng, tier)
 
 
 # ------------------------------------------------------------------ oracle
@@ -617,10 +695,12 @@ def oracle(line, meta, impl):
         return ("crash", "implementation crashed: " + impl[:200])
     if "LEAK" in impl:
         return ("leak", "allocation leaked: " + impl[-40:])
+    if "BADARG" in impl:
+        return ("userarg", "a call arrived with a user argument other than the one given to json_c_visit: " + impl[:160])
     want = meta.get("want")
     if line.count(" ") > 2:
         return oracle_progs(line, want, impl)
-    text, tree, sched = parse_line(line)
+    text, tree, sched, _opts = parse_line(line)
     if want is None:
         want, _ = want_obs(tree, sched)
     if impl == want:
@@ -637,6 +717,10 @@ def oracle(line, meta, impl):
         last = code_name(answer(len(gc) - 1))
         return ("result-" + last, "same calls but json_c_visit returned %s, the documented result is %s (last answer: %s)"
                 % (got[-1][4:], exp[-1][4:], last))
+    k = next((i for i in range(min(len(gc), len(ec))) if gc[i] != ec[i]), None)
+    if k is not None and gc[k].split(" ")[0] == ec[k].split(" ")[0] and gc[k].split(" ")[2:] == ec[k].split(" ")[2:]:
+        return ("call-flags", "call %d is about the right node but its flags are %s; documented: %s (0 on a first call, "
+                "JSON_C_VISIT_SECOND on a second one, whatever future_flags is)" % (k + 1, gc[k].split(" ")[1], ec[k].split(" ")[1]))
     if len(gc) == len(ec) and all(g.split(" ")[:2] == e.split(" ")[:2] for g, e in zip(gc, ec)):
         k = next(i for i in range(len(gc)) if gc[i] != ec[i])
         return ("call-args", "call %d is about the right node but was given [%s], documented [%s]" % (k + 1, gc[k], ec[k]))
@@ -673,6 +757,9 @@ def oracle_progs(line, want, impl):
     k = 0
     while k < len(g) and k < len(e) and g[k] == e[k]:
         k += 1
+    if k < len(g) and k < len(e) and g[k].split(" ")[:-1] == e[k].split(" ")[:-1] and len(e[k].split(" ")) == 6:
+        return ("userarg", "traversal %d, step %d [%s]: the call arrived with %s instead of the user argument given to "
+                "json_c_visit for this traversal" % (i, k + 1, e[k], g[k].split(" ")[-1]))
     return (cls, "traversal %d (%s) is not the reference traversal of its own tree and answers: step %d is [%s], documented [%s]"
             % (i, role, k + 1, g[k] if k < len(g) else "end", e[k] if k < len(e) else "end"))
 
@@ -782,19 +869,22 @@ def shrink_progs(ck, line, cls):
 
     def variants(ps):
         def pv(p):
-            tree, sched, nested = p
+            tree, sched, nested = p[:3]
+            o = p[3] if len(p) > 3 else ""
+            if o:
+                yield (tree, sched, nested, "")
             if sched:
-                yield (tree, [], nested)
-                yield (tree, sched[:-1], nested)
+                yield (tree, [], nested, o)
+                yield (tree, sched[:-1], nested, o)
             if not isinstance(tree, str) and tree is not None:
-                yield (None, sched, nested)
+                yield (None, sched, nested, o)
             for i in range(len(nested)):
-                yield (tree, sched, nested[:i] + nested[i + 1:])
+                yield (tree, sched, nested[:i] + nested[i + 1:], o)
                 k, q = nested[i]
                 if k > 1:
-                    yield (tree, sched, nested[:i] + [(1, q)] + nested[i + 1:])
+                    yield (tree, sched, nested[:i] + [(1, q)] + nested[i + 1:], o)
                 for qv in pv(q):
-                    yield (tree, sched, nested[:i] + [(k, qv)] + nested[i + 1:])
+                    yield (tree, sched, nested[:i] + [(k, qv)] + nested[i + 1:], o)
         for i in range(len(ps)):
             if len(ps) > 1:
                 yield ps[:i] + ps[i + 1:]
@@ -820,7 +910,12 @@ def shrink(ck, line, cls):
     if line.count(" ") > 2:
         return shrink_progs(ck, line, cls)
     t_end = time.time() + 40          # large trees: every candidate costs up to a second
-    text, tree, sched = parse_line(line)
+    text, tree, sched, opts = parse_line(line)
+    if opts:                          # the arguments of json_c_visit: needed for the failure?
+        _, c, _ = ck.run_pair([mkline(text, sched)], "shrink")
+        v = oracle(mkline(text, sched), {}, c.get(1, "MISSING"))
+        if v is not None and v[0] == cls:
+            opts = ""
     best = (tree, sched)
 
     def size(t, s):
@@ -854,7 +949,7 @@ def shrink(ck, line, cls):
             cands = cands[:10 if bs[0] > 5000 else 24]
         if not cands:
             break
-        lines = [mkline(dump(ct), cs) for ct, cs in cands]
+        lines = [mkline(dump(ct), cs, opts) for ct, cs in cands]
         _, c, _ = ck.run_pair(lines, "shrink")
         ok = []
         for i, (cand, l) in enumerate(zip(cands, lines), start=1):
@@ -864,14 +959,14 @@ def shrink(ck, line, cls):
         if not ok:
             break
         best = min(ok, key=lambda c: size(*c))
-    return mkline(dump(best[0]), best[1])
+    return mkline(dump(best[0]), best[1], opts)
 
 
 def search(rng, broken_lines):
     out = []
     for l in broken_lines[:20]:
         try:
-            text, tree, sched = parse_line(l)
+            text, tree, sched, _opts = parse_line(l)
         except Exception:
             continue
         _decision_tree(tree, text, min(6, len(sched) + 2), 0, out, "search")
